@@ -567,12 +567,18 @@ package desync
 //@ func (l *sparseFileLoader) loadChunk
 //@   prop C10
 //@   requires wfSparse(l) && 0 <= i && i < len(l.chunks) && held(l.mu) == 0 && 8*len(l.done) >= len(l.chunks)
-//@   modifies l.done, l.mu, allmem(uint8), heap(sparseIndexChunk.mu), heap(Chunk.data), l.s.$gets, l.s.$lastErr
+//@   modifies l.done, l.mu, allmem(uint8), heap(sparseIndexChunk.mu), heap(Chunk.data), l.s.$gets, l.s.$lastErr, $attempts, $last
 //@   ensures r0 == nil ==> bitAt(bytes(l.done), i)
 //@   ensures held(l.mu) == 0 && len(l.done) == old(len(l.done))
 //# bits already set stay set (what other loaders and this one did is monotone)
 //@   ensures forall k int :: old(bitAt(bytes(l.done), k)) ==> bitAt(bytes(l.done), k)
 //@   ensures l.s.$lastErr != nil && l.s.$gets != old(l.s.$gets) ==> r0 != nil
+//# the bit is set only after the chunk data was written to the cache file successfully
+//@   ghost@entry $attempts = 0
+//@   ghost@after:WriteAt $attempts = $attempts + 1
+//@   ghost@after:WriteAt $last = $r1
+//@   assert@after:WriteAt $a1 == l.chunks[i].Start && $a0 == b
+//@   oncall Set: requires $attempts == 1 && $last == nil && $arg0 == i && $arg1
 
 //@ func (l *sparseFileLoader) loadRange
 //@   prop C10
@@ -582,6 +588,7 @@ package desync
 //@   loop 1: invariant forall j int :: inrng(chunksNeeded, j) ==> first <= elem(chunksNeeded, j) && elem(chunksNeeded, j) <= last
 //# every chunk of the range is classified: already loaded, a null chunk of the truncated file, or queued for loading
 //@   assert@loop1.iterend b || isNullAt(l, i) || (len(chunksNeeded) > 0 && chunksNeeded[len(chunksNeeded)-1] == i)
+//@   assert@loop1.exit i == last + 1
 //@   loop 2: invariant held(l.mu) == 0 && 8*len(l.done) >= len(l.chunks)
 //@   loop 2: invariant forall j int :: inrng(chunksNeeded[:$i], j) ==> bitAt(bytes(l.done), elem(chunksNeeded, j))
 
